@@ -40,6 +40,14 @@ HIST_CLASSES = [
 # constructors that draw a random irreducible polynomial (generator seeded from the clock): no cross-process reference
 NON_ISO = {"Extension<GFqDom<int64_t>>", "GFqDom<int64_t>", "GFqDom<int32_t>", "GFqExtFast<int64_t>", "GFqExt<int64_t>",
            "Poly1Dom<GFqDom<int64_t>,Dense>", "Poly1FactorDom<GFqDom<int64_t>,Dense>"}
+# classes with an in-place re-parameterisation (event sN:P): RNSsystem::setPrimes, Modular<T>::read(istream&), Modular<Log16>::read
+MUTABLE = ["Modular<int32_t>", "Modular<uint32_t>", "Modular<int64_t>", "Modular<uint64_t>", "Modular<float>", "Modular<double>",
+           "Modular<Integer>", "Modular<Log16>", "RNSsystem<Integer,Modular<double>>"]
+MUT_DIRECTED = [
+    "c0:A s0:B", "c0:A s0:B s0:A", "c0:B s0:C s0:B s0:C", "c0:A s0:D s0:A", "c0:A s0:A", "c0:C s0:B s0:C",
+    "c0:A k1:0 s0:B d0 u1", "c0:A k1:0 s1:B s0:C", "c0:A c1:B s0:B a1:0 s0:A u1", "c0:B c1:C s1:B a0:1 s1:C u0", "c0:A s0:B k1:0 d0 u1",
+    "c0:D s0:A k1:0 s1:D a0:1", "c0:B u0 u0 s0:C u0 s0:A s0:D",
+]
 GFQ_PARAMS = {0: (3, 2), 1: (5, 2), 2: (2, 4), 3: (7, 1)}          # as in harness/c16_history.C (GP, GE)
 
 
@@ -160,7 +168,7 @@ def valid_events(live, slots, nparams):
 def apply_event(live, e):
     k, n = e[0], int(e[1])
     live = dict(live)
-    if k == "c":
+    if k in "cs":
         live[n] = int(e[3:])
     elif k == "k":
         live[n] = live[int(e[3:])]
@@ -176,8 +184,33 @@ DIRECTED = [
     "c0:A c1:B a1:0 u1 d0 u1", "c0:A c1:B a0:1 u0 u1 d1 u0", "c0:A a0:0 u0", "c0:A u0 a0:0 u0 k1:0 d0 u1", "c0:A k1:0 a0:1 u0 d1 u0",
     "c0:A k1:0 a1:0 d0 u1", "c0:A c1:B k2:1 a2:0 u2 d0 d1 u2", "c0:A c1:B k2:0 a0:1 a1:2 d2 u0 u1", "c0:A c1:B c2:C a0:1 a1:2 a2:0 u0 u1 u2",
     "c0:A k1:0 k2:1 d0 d1 u2", "c0:A c1:B a0:1 a0:0 a1:0 d1 u0", "c0:B d0 c0:A u0", "c0:A c1:B d1 c1:C k2:1 a2:0 d0 u2",
-    "c0:C c1:A a1:0 a1:1 u1", "c0:A k1:0 k2:0 a1:2 d0 d2 u1", "c0:D c1:A u1 a0:1 u0", "c0:A c1:D a1:0 u1 k2:1 d1 d0 u2",
+    "c0:C c1:A a1:0 a1:1 u1", "c0:A c1:A a0:1 u0 d1 u0", "c0:A c1:A k2:0 a2:1 u2 d1 u2", "c0:B c1:B a1:0 u1", "c0:A k1:0 k2:0 a1:2 d0 d2 u1", "c0:D c1:A u1 a0:1 u0", "c0:A c1:D a1:0 u1 k2:1 d1 d0 u2",
 ]
+
+
+def gen_mut_histories(rng, tier):
+    """histories with in-place re-parameterisation, for the classes that have a mutator"""
+    hs = []
+    for perm in ((0, 1, 2, 3), (1, 2, 3, 0), (3, 0, 1, 2), (2, 3, 0, 1)):
+        for h in MUT_DIRECTED:
+            for ch, v in zip("ABCD", perm):
+                h = h.replace(ch, str(v))
+            hs.append(h)
+    for _ in range(30 if tier == "quick" else 600):
+        live, h = {}, []
+        for _ in range(rng.range(3, 8)):
+            ev = valid_events(live, 3, 4)
+            muts = ["s%d:%d" % (n, q) for n in sorted(live) for q in range(4)]
+            e = rng.choice(muts) if (muts and rng.chance(2, 5)) else rng.choice(ev)
+            h.append(e)
+            live = apply_event(live, e)
+        if any(e[0] == "s" for e in h):
+            hs.append(" ".join(h))
+    seen, out = set(), []
+    for h in hs:
+        if h not in seen:
+            seen.add(h); out.append(h)
+    return out
 
 
 def gen_histories(rng, tier):
@@ -255,11 +288,15 @@ def category(ev, obj):
         return "assign-target" if n == obj else ("assign-source" if m == obj else "assign-other")
     if k == "d":
         return "destroy-other"
+    if k == "s":
+        return "mutate" if n == obj else "mutate-other"
     return "use" if n == obj else "use-other"
 
 
 def klass_of(evs, idx, ev, obj):
     """input class of a divergence: anything at or after a self-assignment is keyed as such"""
+    if any(e[0] == "s" for e in evs[:idx + 1]):
+        return "after-mutate"
     for e in evs[:idx + 1]:
         if e[0] == "a" and e[1] == e[3:]:
             return "after-self-assign"
@@ -282,6 +319,9 @@ def check_history(chk, cls, hist, steps, crash, iso):
             if cls not in NON_ISO and iso.get((cls, p)):
                 base = dict(iso[(cls, p)])         # deterministic construction: the reference is the isolated process
             ref[n] = (p, base)
+        elif k == "s":
+            p = int(ev[3:])              # re-parameterised in place: from now on a fresh object of parameter set p
+            ref[n] = (p, dict(iso.get((cls, p)) or objs.get(n, {})))
         elif k in "ka":
             m = int(ev[3:])
             if m in ref:
@@ -321,6 +361,8 @@ def check_history(chk, cls, hist, steps, crash, iso):
         cat = category(ev, obj if obj is not None else (int(ev[1]) if ev != "end" and len(ev) > 1 else -1)) if ev != "end" else "destructors-at-end"
         if any(e[0] == "a" and e[1] == e[3:] for e in evs[:len(steps) + 1]):
             cat = "after-self-assign"
+        if any(e[0] == "s" for e in evs[:len(steps) + 1]):
+            cat = "after-mutate"
         if part not in reported:
             chk.fail_input("history:%s:%s" % (cls, part), cat,
                            {"class": cls, "history": hist, "crash": crash, "during_event": ev, "object": obj, "part": part}, "no crash", crash,
@@ -376,6 +418,10 @@ def run_histories(chk, rng, tier, classes=None):
             chk.fail_input("history:%s:construct" % cls, "isolated", {"class": cls, "line": line[:200]}, "no crash", crash, "construction + probe in an empty process crashes")
     hists = gen_histories(rng, tier)
     want = [(c, h) for c in classes for h in hists]
+    mh = gen_mut_histories(rng, tier)
+    want += [(c, h) for c in classes if c in MUTABLE for h in mh]
+    chk.cov["mutator_histories_per_class"] = len(mh)
+    chk.cov["classes_with_mutator"] = [c for c in classes if c in MUTABLE]
     ok, out, err = run_parallel(hb, ["%s %s\n" % (c, h) for c, h in want], jobs=6 if tier == "quick" else 12)
     if not ok:
         chk.broke("history harness failed (lost output lines)", err)
@@ -387,7 +433,7 @@ def run_histories(chk, rng, tier, classes=None):
         n = check_history(chk, c, h, steps, crash, iso)
         ncmp += n
         per_class[c] = per_class.get(c, 0) + 1
-        nontrivial = any(t[0] in "ka" for t in h.split()) or len(set(t[1] for t in h.split())) > 1
+        nontrivial = any(t[0] in "kas" for t in h.split()) or len(set(t[1] for t in h.split())) > 1
         chk.count((c, h), nontrivial)
         if len(chk.cov["samples"]) < 10 and nontrivial and (len(chk.cov["samples"]) * 977) % len(want) < 10 ** 9 and hash((c, h)) % 211 == 0:
             chk.sample({"class": c, "history": h, "observed": line[:300]})
